@@ -281,6 +281,8 @@ func (e *Engine) harnessPrimitive(fr *frame, fn *ssa.Function, args []Value, g *
 		return e.timeSub(e.timeNow(g), args[0]), true
 	case "vPeek":
 		return tFalse, true
+	case "vNative":
+		return tFalse, true
 	case "vKnown":
 		id := constStrArg(args[0])
 		for _, k := range e.spec.KnownOpen {
